@@ -13,8 +13,8 @@ claim("C02",
       COMMON_NOTE + "Assumes the ghost-series contract of storage.MemoizedSeriesIterator (specs/10_iterators.spec).",
       "DESIGN.md 4 C02")
 claim("C06",
-      "Proof of the listed obligations (partial): number literals deliver one sample with the literal value at every step of any window; step-invariant children are planned on the single-step grid; scalar streams keep the points of all batches in Exec; function/negation operators receive the node's arguments.",
-      COMMON_NOTE + "Value rules of the individual instant functions are not yet under contract.",
+      "Proof of the listed obligations (partial): functionOperator.Next applies the function to every sample with the step's time and the scalar arguments of that very step (NaN where a scalar argument has no sample), drops exactly the samples for which the function has no value, and scalar(v) delivers one sample per step, NaN unless v has exactly one element; number literals deliver the literal at every step of any window; step-invariant children are planned on the single-step grid; scalar streams keep the points of all batches in Exec.",
+      COMMON_NOTE + "Value rules of the individual instant functions (the Funcs table), unary minus and histogram_quantile are not yet under contract; sibling lock-step (equal batch lengths of the arguments) is assumed from C18.",
       "DESIGN.md 4 C06")
 claim("C07",
       "Proof of the listed obligations: NumSteps, the step grid of leaf operators (first step = cursor, one vector per step, none beyond the window end, maximal batches, cursor advance), windows passed unchanged through plan construction, Exec keeps every batch.",
@@ -41,7 +41,7 @@ claim("C13",
       COMMON_NOTE + "Goroutine entry points without recover (concurrencyOperator.pull, coalesce, worker) are not covered.",
       "DESIGN.md 4 C13")
 claim("C15",
-      "Proof of the listed obligations: iterator failures surface from selectPoint, Exec records the first error and reports success only after the stream signalled its end; newErrResult keeps the first error.",
+      "Proof of the listed obligations: errors of Querier() and of the series set are returned by the series loader; iterator failures surface from selectPoint and selectPoints, Exec records the first error and reports success only after the stream signalled its end; newErrResult keeps the first error.",
       COMMON_NOTE + "Error hand-off through channels is assumed.",
       "DESIGN.md 4 C15")
 claim("C16",
@@ -49,8 +49,8 @@ claim("C16",
       COMMON_NOTE + "The reference rules are a transcription of promql/engine.go (trusted).",
       "DESIGN.md 4 C16")
 claim("C17",
-      "Proof of the listed obligations (partial): constructors do not touch the storage; shards are fresh copies (the shared series list is not written).",
-      COMMON_NOTE + "Close-exactly-once of queriers and label ownership of every operator are not yet under contract.",
+      "Proof of the listed obligations (partial): the one function that opens a storage querier closes it exactly once on every way out - normal return, storage error and a panic raised by a storage callback; constructors do not touch the storage; shards are fresh copies (the shared series list is not written).",
+      COMMON_NOTE + "Label ownership (no in-place edit of storage-owned label sets) is not yet under contract; that loadSeries runs no later than Exec is not decided.",
       "DESIGN.md 4 C17")
 claim("C18",
       "Proof of the listed obligations (partial): the stream contract for the leaf operators under contract (batch size, one vector per step in increasing order, ids/values of equal length, end of stream), never a stale value out of selectPoint.",
@@ -65,7 +65,17 @@ claim("C20",
       COMMON_NOTE + "The embedded Prometheus engine and the metrics registry are assumed stateless for queries.",
       "DESIGN.md 4 C20")
 
-NOT_BUILT = "no contract-level check has been built for this property yet (work in progress); not claimed"
-for pid in ["C03","C04","C05","C09"]:
-    NA[pid] = NOT_BUILT
+claim("C03",
+      "Proof of the listed obligations (partial): selectPoints hands a range function only non-stale samples inside the window and surfaces iterator failures; the matrix selector is built from the node's range, offset and options; extrapolatedRate (rate/increase/delta) computes the reference engine's formula operation by operation, for every window of at least two samples; range hints and windows equal the reference arithmetic.",
+      COMMON_NOTE + "Completeness of the window (no in-window sample is lost when points are carried over from the previous step) and the values of the other range functions are not yet under contract. Float arithmetic is uninterpreted: equality of values means same operations on the same operands in the same order.",
+      "DESIGN.md 4 C03")
+claim("C04",
+      "Proof of the listed obligations (partial): aggregate.Next and kAggregate.Next deliver one output vector per input vector and pair the parameter of each step with that step (the parameter operator is pulled once per input batch; NaN when absent); topk/bottomk: k below one selects nothing, a k outside int64 is the reference's error, every step appends exactly one vector and leaves the heaps empty; the vectorized (ungrouped) table is stamped and valued per step.",
+      COMMON_NOTE + "Group formation (label hashing), the grouped scalar table, accumulator values (sum/avg/stddev/quantile) and which k elements topk keeps are not yet under contract; the worker hand-off is assumed.",
+      "DESIGN.md 4 C04")
+claim("C05",
+      "Proof of the listed obligations (partial): table.execBinaryOperation evaluates one step - an output reached twice from the one side in the same step is an error whether or not the pair survives the comparison filter, never for the many side; a right sample pairs only with a left sample of the same step; the operation receives (left, right); bool yields 1/0 and a filtered comparison keeps the operation's value; output ids index the output series; operands are planned in order with the node's matching.",
+      COMMON_NOTE + "The join index (which series match), result label sets and the scalar forms are not yet under contract.",
+      "DESIGN.md 4 C05")
+NA["C09"] = "only the selector-cache key and plan-construction obligations touch this property so far; no optimizer function is under contract yet, so the property is not claimed"
 NA["C14"] = "liveness/schedule property (bounded-time return, deadlock freedom, goroutine termination): no pre/postcondition or invariant of a sequential contract expresses it and gocv has no concurrency model"
